@@ -273,9 +273,9 @@ func progressSuite() hlib.Suite {
 }
 
 func suites(tier string) []hlib.Suite {
-	d := 6
+	d := 7
 	if tier != "quick" {
-		d = 7
+		d = 8
 	}
 	return []hlib.Suite{aggregationSuite(d), measurementSuite(), progressSuite()}
 }
